@@ -806,7 +806,13 @@ func (db *DB) DeleteObjects(from *iterator) (err error) {
 
 	var o Object
 
-	defer db.commit(from.object())
+	// we commit whatever happens and report a commit
+	// failure if nothing else failed before
+	defer func() {
+		if e := db.commit(from.object()); e != nil && err == nil {
+			err = e
+		}
+	}()
 
 	for o, err = from.next(); err == nil || err != ErrEOI; o, err = from.next() {
 		if err = db.delete(o); err != nil {
